@@ -40,6 +40,14 @@ def getProp : Sexp → Option PProp
   | .atom "counter-increment" => some .ctrIncr
   | .atom "counter-reset" => some .ctrReset
   | .atom "counter-set" => some .ctrSet
+  | .atom "padding-top" => some .pTop
+  | .atom "padding-right" => some .pRight
+  | .atom "padding-bottom" => some .pBottom
+  | .atom "padding-left" => some .pLeft
+  | .atom "border-top-width" => some .bTop
+  | .atom "border-right-width" => some .bRight
+  | .atom "border-bottom-width" => some .bBottom
+  | .atom "border-left-width" => some .bLeft
   | _ => none
 
 def getDecl : Sexp → Option Decl
@@ -59,9 +67,11 @@ def getRS : Nat → Sexp → Option RS
   | fuel+1, .list [i, sub] => do some (.at (← i.asNat?) (← getRS fuel sub))
   | _, _ => none
 
+/-- margin-box extents, margins and content size, then border / padding: left right top bottom -/
 def putGeom (g : PageGeom) : Sexp :=
-  .list [.atom "geom", ofRat (g.h.mA + g.h.inner + g.h.mB), ofRat (g.v.mA + g.v.inner + g.v.mB), ofRat g.h.mA, ofRat g.h.inner, ofRat g.h.mB,
-         ofRat g.v.mA, ofRat g.v.inner, ofRat g.v.mB]
+  .list [.atom "geom", ofRat (g.h.mA + g.dh.sum + g.h.inner + g.h.mB), ofRat (g.v.mA + g.dv.sum + g.v.inner + g.v.mB),
+         ofRat g.h.mA, ofRat g.h.inner, ofRat g.h.mB, ofRat g.v.mA, ofRat g.v.inner, ofRat g.v.mB,
+         ofRat g.dh.bA, ofRat g.dh.bB, ofRat g.dv.bA, ofRat g.dv.bB, ofRat g.dh.pA, ofRat g.dh.pB, ofRat g.dv.pA, ofRat g.dv.pB]
 
 def putPages (rules : List Rule) : List Page → List Int → List Sexp
   | p :: ps, c :: cs =>
